@@ -525,6 +525,7 @@ func famRawConv(w *World, c *Case, rng *rand.Rand) {
 		w.Stat("raw_expect_tunnel_alive", 1)
 		if recvDone || serveReturned {
 			w.Violate("C09", "stream-level-violation-killed-tunnel", "deviation %s is at most a stream-level violation but the tunnel ended (recv err %v, serve err %q)", desc, recvErr, serveErr)
+			w.Violate("C03", "raw-deviation-killed-tunnel", "deviation %s on one stream ended the tunnel (serve err %q)", desc, serveErr)
 		}
 	}
 	// ---- per-stream verdicts ----
@@ -547,6 +548,7 @@ func famRawConv(w *World, c *Case, rng *rand.Rand) {
 					code = view.Close.GetStatus().GetCode()
 				}
 				w.Violate("C09", "bystander-stream-disturbed", "deviation %s does not touch stream %s (id %d) but it did not complete normally (closes=%d code=%d)", desc, s.tag, s.id, view.Closes, code)
+				w.Violate("C03", "raw-deviation-disturbed-bystander", "deviation %s on another stream: stream %s (id %d) did not complete normally (closes=%d code=%d)", desc, s.tag, s.id, view.Closes, code)
 				continue
 			}
 			if len(view.Msgs) != len(s.resp) {
